@@ -452,9 +452,13 @@ func (g *TypedGen) Gen(ty string, depth int) *lib.Node {
 			g.Stats["splat"]++
 			src := &lib.Node{K: "var", S: "lo"}
 			if r.Chance(1, 4) {
-				src = &lib.Node{K: "var", S: r.Pick([]string{"o1", "nul", "l1", "t1"})}
+				src = &lib.Node{K: "var", S: r.Pick([]string{"o1", "nul", "l1", "t1", "m1", "ls", "s1", "n1"})}
 			}
 			sp := &lib.Node{K: r.Pick([]string{"fsplat", "asplat"}), Kids: []*lib.Node{src}}
+			if r.Chance(1, 5) {
+				// a bare splat: the auto-upgrade of a non-sequence (object, map, primitive, null) to a tuple shows
+				return sp
+			}
 			return &lib.Node{K: "attr", S: r.Pick([]string{"a", "b", "n"}), Kids: []*lib.Node{sp}}
 		case 5:
 			return cond("tuple")
